@@ -6,7 +6,8 @@ sid=$1; shift
 V=$(cd "$(dirname "$0")/.." && pwd)
 wt=/tmp/swt_$sid.$$
 git -C /repo worktree add -q --detach $wt HEAD || exit 2
-trap 'git -C /repo worktree remove --force '$wt'; rm -rf '$V'/evidence/.seed/'$sid'' EXIT
+# (a seeded tree may write hook-tagged bytecode next to third-party modules: removed afterwards)
+trap 'git -C /repo worktree remove --force '$wt'; rm -rf '$V'/evidence/.seed/'$sid'; find /venv /root/.pyenv -name "*opt-jaxtyping*.pyc" -delete 2>/dev/null' EXIT
 git -C $wt apply $V/seeded/$sid/patch.diff || { echo "patch does not apply"; exit 2; }
 for c in "$@"; do
   (cd $V && VERIF_REPO=$wt VERIF_EVID_SUFFIX=.seed/$sid ./check $c --tier ${TIER:-quick} 2>&1 | grep -v "^\.\.\. and" | tail -${TAIL:-3})
